@@ -1,15 +1,14 @@
-"""Maintenance tool: run engine-G scenarios with ALL oracles and tabulate violation classes.
-usage: survey.py <n_runs> <seed> <out.json> [tier]"""
+"""Maintenance tool (never used by a registered check): run engine-G scenarios of every property profile with
+ALL oracles and tabulate violation classes.
+usage: survey.py <runs_per_profile> <seed0> <n_seeds> <out.json> [tier]"""
 import sys, os, json, time, random
 sys.path.insert(0, os.path.dirname(os.path.dirname(os.path.abspath(__file__))))
 from checks import farm, gprops, engine_g, oracles_g
 from sim import install
 from sim.kernel import H
-from workload import scenario
 
 ORACLES = {"C01": "c01", "C02": "c02", "C03": "c03", "C04": "c04_obs", "C05": "c05", "C06": "c06", "C10": "c10",
            "C15": "c15", "C17": "c17", "C11": "c11_pool"}
-gprops.G_PROPS["SURVEY"] = dict(oracles=[], families=scenario.FAMILIES, modes=scenario.MODES, n_quick=0, n_thorough=0, opts={"cycles_bias_one": True})
 
 def run_job(job):
     t0 = time.time()
@@ -31,39 +30,37 @@ def run_job(job):
     return s
 
 if __name__ == "__main__":
-    n, seed, out = int(sys.argv[1]), int(sys.argv[2]), sys.argv[3]
-    tier = sys.argv[4] if len(sys.argv) > 4 else "quick"
+    n, seed0, nseeds, out = int(sys.argv[1]), int(sys.argv[2]), int(sys.argv[3]), sys.argv[4]
+    tier = sys.argv[5] if len(sys.argv) > 5 else "quick"
     install.install()
-    jobs = gprops.plan("SURVEY", tier, seed, n_override=n)
+    from checks import mod_c04  # registers the C04 observational profile
+    jobs = []
+    for seed in range(seed0, seed0 + nseeds):
+        for pid in sorted(gprops.G_PROPS):
+            jobs.extend(gprops.plan(pid, tier, seed, n_override=n))
+    for k, j in enumerate(jobs):
+        j["i"] = k
     t0 = time.time()
-    res, to = farm.run_jobs(jobs, run_job, nproc=int(os.environ.get("VERIF_JOBS", "16")), timeout_s=120, init_fn=install.install, log_path="/tmp/survey_farm.log")
+    res, to = farm.run_jobs(jobs, run_job, nproc=int(os.environ.get("VERIF_JOBS", "16")), timeout_s=240, init_fn=install.install, log_path="/tmp/survey_farm.log")
     wall = time.time() - t0
-    classes = {}
-    fails = {}
-    harness = []
-    walls = []
+    classes, fails, harness, pair = {}, {}, [], {}
     for j, r in zip(jobs, res):
         if r is None: continue
         if "harness_error" in r or "harness_timeout" in r:
-            harness.append((j["cell"], j["seed"], r)); continue
-        walls.append((r["wall"], r["cell"]))
+            harness.append((j["cell"], j["seed"], j["pid"], str(r)[:600])); continue
         for v in r["violations"]:
             k = v["pid"] + "|" + json.dumps(v["cls"])
-            c = classes.setdefault(k, {"n": 0, "msg": v["msg"], "desc": r["desc"], "families": {}, "modes": {}})
+            c = classes.setdefault(k, {"n": 0, "msg": v["msg"], "desc": r["desc"], "families": {}, "modes": {}, "faulted": 0})
             c["n"] += 1
             c["families"][r["family"]] = c["families"].get(r["family"], 0) + 1
             c["modes"][r["cell"][2]] = c["modes"].get(r["cell"][2], 0) + 1
+            c["faulted"] += 1 if r["fault_kinds"] else 0
         if r["exc"] and not r["injected"]:
             k = json.dumps(r["exc"]) + "|" + r["family"]
             f = fails.setdefault(k, {"n": 0, "msg": r["exc_msg"], "origin": r["exc_origin"], "desc": r["desc"]})
             f["n"] += 1
-    walls.sort(reverse=True)
-    # per (optimizer, family) run/fail counts
-    pair = {}
-    for r in res:
-        if r is None or "harness_error" in r or "harness_timeout" in r: continue
         k = r["cell"][0] + "|" + r["family"]
         p = pair.setdefault(k, [0, 0]); p[0] += 1; p[1] += 1 if (r["exc"] and not r["injected"]) else 0
-    json.dump({"n": n, "seed": seed, "wall": wall, "classes": classes, "fails": fails, "pair": pair,
-               "harness": [(c, s, str(r)[:500]) for c, s, r in harness], "slowest": walls[:30], "timeouts": to}, open(out, "w"), indent=1)
-    print(f"runs={n} wall={wall:.1f}s classes={len(classes)} fail_keys={len(fails)} harness={len(harness)} timeouts={len(to)}")
+    json.dump({"n": len(jobs), "seed0": seed0, "nseeds": nseeds, "tier": tier, "wall": wall, "classes": classes, "fails": fails, "pair": pair,
+               "harness": harness, "timeouts": [(jobs[i]["cell"], jobs[i]["seed"]) for i in to]}, open(out, "w"), indent=1)
+    print(f"runs={len(jobs)} wall={wall:.1f}s classes={len(classes)} fail_keys={len(fails)} harness={len(harness)} timeouts={len(to)}")
